@@ -418,9 +418,14 @@ def c01(ctx):
     # (2) arbitrary rule sets: random histories validated by TLC (Allow recomputed from the rules in the trace)
     r1, v1 = vault_random(ctx, "db", 1500 if th else 150, 40, parts=16 if th else 8)
     r2, v2 = vault_random(ctx, "http", 1500 if th else 150, 40, nofaults=True, parts=16 if th else 8)
+    # (3) callers with partial or no grants racing authorized ones, at the database API and through the handlers: the verdict of one
+    # request must never come from another that overlaps it (TLC places the Apply steps; VaultConc computes Allow per caller)
+    rc1, sc1 = conc_histories(ctx, "db", 1200 if th else 120, race=True, parts=16 if th else 8, opmix="acl")
+    rc2, sc2 = conc_histories(ctx, "http", 800 if th else 80, race=True, parts=16 if th else 8, opmix="acl")
     tot = merge_tot(t1, t2, t3, t4)
     cov = {"states": ns + nsf, "transitions": tot.get("targets_covered", 0),
-           "traces_validated_against_impl": v1["accepted"] + v2["accepted"],
+           "traces_validated_against_impl": v1["accepted"] + v2["accepted"] + sc1["accepted"] + sc2["accepted"],
+           "concurrent_histories_mixed_grants": sc1["histories"] + sc2["histories"],
            "samples": (s1[:1] + s2[:1] + s3[:1] + (r1.get("samples") or [])[:2]),
            "model_transitions": ne + nef, "edges_executed_on_real_code": tot.get("edges_executed", 0),
            "trace_events_validated": v1["events"] + v2["events"], "callers_in_family": 39,
@@ -445,8 +450,10 @@ def c09(ctx):
     tot = merge_tot(t1, t2)
     # conditional gets racing activations / puts / deletions: the check-and-read must be one atomic step (VaultConc: LogApply)
     rc, sc = conc_histories(ctx, "db", 1500 if th else 200, race=True, parts=16 if th else 8, opmix="cond")
-    cov = {"states": ns, "transitions": tot.get("targets_covered", 0), "traces_validated_against_impl": sc["accepted"],
-           "concurrent_histories": sc["histories"],
+    # ... and through the HTTP handlers (overlapping conditional gets carrying different versions must each get their own answer)
+    rch, sch = conc_histories(ctx, "http", 1000 if th else 120, race=True, parts=16 if th else 8, opmix="cond")
+    cov = {"states": ns, "transitions": tot.get("targets_covered", 0), "traces_validated_against_impl": sc["accepted"] + sch["accepted"],
+           "concurrent_histories": sc["histories"] + sch["histories"],
            "samples": s1[:2] + s2[:2], "model_transitions": ne, "edges_executed_on_real_code": tot.get("edges_executed", 0),
            "fileclient_checks": tot.get("fileclient_checks", 0), "exhaustive": True,
            "explanation": "every conditional-get edge of the bounded Vault graph (every V in 0..MaxVer+1: current, older, newer, deleted, "
@@ -683,7 +690,11 @@ def c08(ctx):
     ns, ne = build_graph(run, os.path.join(wd, "graph.json"))
     log("graph c08: %d states, %d edges" % (ns, ne))
     tot, samples = vault_walk(ctx, wd, "c08", shards=16 if th else 8, env={"VERIF_MODE": "http", "VERIF_PROBE_EVERY": 64})
-    cov = {"states": ns, "transitions": tot.get("targets_covered", 0), "traces_validated_against_impl": 0,
+    # B: overlapping requests by callers with different grants through the real handlers, replies delivered over a slow connection
+    # (every other reply pauses where its delivery starts): each reply must be the caller's own result under the caller's own rules
+    rcc, scc = conc_histories(ctx, "http", 1000 if th else 100, race=True, parts=16 if th else 8, opmix="acl")
+    cov = {"states": ns, "transitions": tot.get("targets_covered", 0), "traces_validated_against_impl": scc["accepted"],
+           "concurrent_histories": scc["histories"],
            "samples": samples[:4], "model_transitions_full_product": full.generated, "model_transitions_replayed": ne,
            "requests_sent_to_real_mux": tot.get("edges_executed", 0), "exhaustive": bool(th),
            "explanation": "TLC checks GateNoEffect/StatusExact/PrincipalExact over the complete product method x content type x browser header x "
